@@ -1,4 +1,5 @@
 import SFV.Model.DeployChain
+import SFV.Gen.DeployGuards
 /-! # C26, part B — wraps chains (`SFV/Model/DeployChain.lean`)
 
 The chain model is an executable interpreter with a stack of frames per request (the recursion
@@ -11,66 +12,72 @@ open SFV SFV.Chain
 
 /-- the chain `V → W → D` (`V` wraps `W` wraps `D`), all eager: names 2, 1, 0 -/
 def chainVWD : List Dep := [⟨none, false, false⟩, ⟨some 0, false, true⟩, ⟨some 1, false, true⟩]
-/-- the manager as it is in the source now -/
-def codeChain : Chain.Cfg := ⟨false, false, false⟩
+/-- the manager BEFORE the repairs 749f708 / 3170d47 / e95b534 (regression guards only) -/
+def oldChain : Chain.Cfg := ⟨false, false, false⟩
+/-- the manager as it is in the source now (all three repairs) -/
+def codeChain : Chain.Cfg := ⟨true, true, true⟩
 /-- `deploy(V)` has completed (it deploys `D`, `W`, `V` in turn) -/
 def deployedVWD (c : Chain.Cfg) : Chain.St :=
   (Chain.runActs c chainVWD (initWith [.deploy 2]) [.run 0, .callRet 0 true, .callRet 0 true, .callRet 0 true]).getD {}
 
 set_option maxRecDepth 100000
 
-/-- **FALSE of the code as it is** (`no_undeploy_under_live_wrapper`): `undeploy_all` on the deployed chain; the task
-    for `W` strips `W` from `D`'s dependants although `W` is not undeployed, finds them empty and undeploys `D` while `W`
-    and `V` are live. The concrete schedule (parent, then the children for `D`, `W`): -/
-theorem no_undeploy_under_live_wrapper_false :
-    (match Chain.runActs codeChain chainVWD (spawn (deployedVWD codeChain) .undeployAll) [.run 1, .run 2, .run 3] with
+/-- T tie: the source has the three repairs (reverting 749f708, 3170d47 or e95b534 makes this fail to build) -/
+theorem gen_chain_cfg_is_repaired : Gen.chainCfg = codeChain := rfl
+
+/-- **regression guard — false before fix 749f708** (about the OLD `undeploy`, `oldChain`): `undeploy_all` on the deployed
+    chain; the task for `W` stripped `W` from `D`'s dependants although `W` was not undeployed, found them empty and undeployed
+    `D` while `W` and `V` were live. The concrete schedule (parent, then the children for `D`, `W`): -/
+theorem no_undeploy_under_live_wrapper_false_before_749f708 :
+    (match Chain.runActs oldChain chainVWD (spawn (deployedVWD oldChain) .undeployAll) [.run 1, .run 2, .run 3] with
      | some s => underLiveWrapper chainVWD s && liveNames s == [1, 2] &&
          calls s == [.connDeployEnter 0, .connDeployExit 0, .connDeployEnter 1, .connDeployExit 1, .connDeployEnter 2,
                      .connDeployExit 2, .connUndeployEnter 0]
      | none => false) = true := by
   decide +kernel
 
-/-- **partial** (repaired: the dependants clean-up is inside the "actually undeployed" branch): in every schedule of
+/-- **no undeploy under a live wrapper** (the code as it is, every schedule of the scenario): in every schedule of
     `undeploy_all` on the deployed chain no wrapped deployment is undeployed under a live wrapper, nothing hangs, and
-    every connector is undeployed exactly once -/
-theorem no_undeploy_under_live_wrapper_partial :
-    exploreAll ⟨true, false, false⟩ chainVWD [] (fun s => !underLiveWrapper chainVWD s)
-      (fun s => !stuck s && allUndeployedOnce s) 40 (spawn (deployedVWD ⟨true, false, false⟩) .undeployAll) = true := by
+    every connector is undeployed exactly once (order V, W, D) -/
+theorem no_undeploy_under_live_wrapper :
+    exploreAll codeChain chainVWD [] (fun s => !underLiveWrapper chainVWD s)
+      (fun s => !stuck s && allUndeployedOnce s) 40 (spawn (deployedVWD codeChain) .undeployAll) = true := by
   decide +kernel
 
 /-- … and the same for three concurrent explicit `undeploy(D)`, `undeploy(W)`, `undeploy(V)` requests -/
-theorem no_undeploy_under_live_wrapper_partial_explicit :
-    exploreAll ⟨true, false, false⟩ chainVWD [] (fun s => !underLiveWrapper chainVWD s) (fun s => !stuck s) 60
-      (spawn (spawn (spawn (deployedVWD ⟨true, false, false⟩) (.undeploy 0)) (.undeploy 1)) (.undeploy 2)) = true := by
+theorem no_undeploy_under_live_wrapper_explicit :
+    exploreAll codeChain chainVWD [] (fun s => !underLiveWrapper chainVWD s) (fun s => !stuck s) 60
+      (spawn (spawn (spawn (deployedVWD codeChain) (.undeploy 0)) (.undeploy 1)) (.undeploy 2)) = true := by
   decide +kernel
 
-/-- **undeploy_all exactly once** (the code as it is): in every schedule of `undeploy_all` on the deployed chain every live connector is undeployed exactly once and the calls return -/
+/-- **undeploy_all exactly once** (the code as it is; it also held before the repairs): in every schedule of `undeploy_all` on the deployed chain every live connector is undeployed exactly once and the calls return -/
 theorem undeploy_all_exactly_once :
     exploreAll codeChain chainVWD [] (fun _ => true) (fun s => !stuck s && allUndeployedOnce s) 40
       (spawn (deployedVWD codeChain) .undeployAll) = true := by
   decide +kernel
 
-/-- **FALSE of the code as it is** (`failed_deploy_wakes_waiters`): two concurrent `deploy(W)`; the first registers
-    `W` and deploys the wrapped `D`, whose `deploy()` raises inside `_inner_deploy`; `W`'s event is never set and the
-    second request waits for ever -/
-theorem failed_deploy_wakes_waiters_false :
-    (match Chain.runActs codeChain chainVWD (initWith [.deploy 1, .deploy 1]) [.run 0, .run 1, .callRet 0 false] with
+/-- **regression guard — false before fix 3170d47** (about the OLD `_deploy`, `oldChain`): two concurrent `deploy(W)`; the
+    first registers `W` and deploys the wrapped `D`, whose `deploy()` raises inside `_inner_deploy`; `W`'s event was never set
+    and the second request waited for ever -/
+theorem failed_deploy_wakes_waiters_false_before_3170d47 :
+    (match Chain.runActs oldChain chainVWD (initWith [.deploy 1, .deploy 1]) [.run 0, .run 1, .callRet 0 false] with
      | some s => stuck s && (s.tasks.map (·.st)) == [.done false, .blocked 0]
      | none => false) = true := by
   decide +kernel
 
-/-- **partial** (repaired: `_deploy` sets the event when `_inner_deploy` raises): two concurrent requests
-    `deploy(W)`, `deploy(W)` where `D`'s or `W`'s `deploy()` may fail: in every schedule every
-    request finishes (returns or raises) and no deployment ever has two connectors deploying-or-live -/
-theorem failed_deploy_wakes_waiters_partial :
-    exploreAll ⟨false, true, false⟩ chainVWD [0, 1] atMostOneActive (fun s => !stuck s) 40
+/-- **a failing wrapped deployment wakes the requests waiting on the wrapper** (the code as it is): two concurrent
+    requests `deploy(W)`, `deploy(W)` where `D`'s or `W`'s `deploy()` may fail: in every schedule every request finishes
+    (returns or raises) and no deployment ever has two connectors deploying-or-live. (The general clause "a failed
+    deployment never leaves a request hanging" is still false: `SFV.C26.failed_deploy_then_undeploy_hangs_false`, open finding.) -/
+theorem failed_inner_deploy_wakes_waiters :
+    exploreAll codeChain chainVWD [0, 1] atMostOneActive (fun s => !stuck s) 40
       (initWith [.deploy 1, .deploy 1]) = true := by
   decide +kernel
 
 /-- **deploy at most once while live, chains** (the code as it is): concurrent `deploy(V)` and `deploy(W)` with any deploy
-    failure: no deployment ever has two connectors deploying-or-live (requests may hang: finding 8) -/
+    failure: no deployment ever has two connectors deploying-or-live, and no request hangs -/
 theorem deploy_at_most_once_while_live_chain :
-    exploreAll codeChain chainVWD [0, 1, 2] atMostOneActive (fun _ => true) 40
+    exploreAll codeChain chainVWD [0, 1, 2] atMostOneActive (fun s => !stuck s) 40
       (initWith [.deploy 2, .deploy 1]) = true := by
   decide +kernel
 
